@@ -59,12 +59,12 @@ Proof. intros H a b Hab Hb Hp. apply Rltb_true in Hp. apply Rltb_true. pose proo
 Lemma strict_asc l : strictly_increasing l -> ascending l.
 Proof. intros H a b Hab Hb. destruct (Nat.eq_dec a b) as [->|Hn]; [lra|]. apply Rlt_le. apply H; lia. Qed.
 
-(* searchsorted on strictly increasing stations *)
-Lemma searchsorted_between spans x j : strictly_increasing spans -> (S j < length spans)%nat ->
+(* searchsorted on non-decreasing stations (a step change repeats a station) *)
+Lemma searchsorted_between spans x j : ascending spans -> (S j < length spans)%nat ->
   nth j spans 0 < x <= nth (S j) spans 0 -> searchsorted spans x = S j.
 Proof.
   intros Hs Hj [H1 H2]. unfold searchsorted. change (fun s => nltb s x) with (fun s => Rltb s x).
-  pose proof (count_iff (fun s => Rltb s x) spans (asc_lt_closed spans x (strict_asc _ Hs))) as C.
+  pose proof (count_iff (fun s => Rltb s x) spans (asc_lt_closed spans x Hs)) as C.
   assert (A : (j < count (fun s => Rltb s x) spans)%nat) by (apply C; [lia | apply Rltb_true; assumption]).
   assert (B : ~ (S j < count (fun s => Rltb s x) spans)%nat).
   { intro Hc. apply C in Hc; [|lia]. apply Rltb_true in Hc. lra. }
@@ -160,7 +160,7 @@ Proof.
 Qed.
 
 Theorem blend_spec (left_side : bool) (cps spans : list R) (fv : nat -> nat -> R) (i j : nat) :
-  strictly_increasing spans -> (if left_side then descending cps else ascending cps) ->
+  ascending spans -> (if left_side then descending cps else ascending cps) ->
   (i < length cps)%nat -> (S j < length spans)%nat ->
   nth j spans 0 < nth i cps 0 <= nth (S j) spans 0 -> nth i cps 0 < nth (length spans - 1) spans 0 ->
   blend_at left_side cps spans fv i =
